@@ -247,6 +247,20 @@ let run (line : string) : string =
   | "mem" -> show_bool (mem (parse_doc a.(1)) (parse_shape a.(2)))
   | "cmp" -> show_cmp (cmp (parse_shape a.(1)) (parse_shape a.(2)))
   | "wf" -> show_bool (wf (parse_shape a.(1)))
+  | "counts" -> (
+      match a.(1) with
+      | "subset" ->
+          let _, n = subset_c (parse_shape a.(2)) (parse_shape a.(3)) in
+          Printf.sprintf "CNT 0 0 0 %d" (int_of_nat n)
+      | "merger" ->
+          let m, s = merger_c (parse_shape a.(2)) (parse_shape a.(3)) in
+          Printf.sprintf "CNT 0 0 %d %d" (int_of_nat m) (int_of_nat s)
+      | "infer_text" -> (
+          match infer_text (parse_doc a.(2)) with
+          | Ok _ -> Printf.sprintf "CNT 0 %d 0 0" (int_of_nat (calls_infer (parse_doc a.(2))))
+          | _ -> "CNT error")
+      | "infer_value" -> Printf.sprintf "CNT %d 0 0 0" (int_of_nat (calls_infer (parse_doc a.(2))))
+      | _ -> "ERR BadOp")
   | "display" -> "TEXT " ^ hex_of_ints (List.map int_of_n (display (parse_shape a.(1))))
   | "ser" -> "TEXT " ^ hex_of_ints (List.map int_of_n (ser_text (parse_shape a.(1))))
   | "roundtrip" -> (
